@@ -714,3 +714,115 @@ def v8_queries_do_not_mutate_constructor_state(ctx) -> None:
         ctx.ok("V8", "DisjointUnion.get_extra_parameters starts each child's dictionary as a copy of its fixed values")
     elif not any(isinstance(x, ast.Attribute) and x.attr == "fixed_values" for x in walk_local(m.node)):
         ctx.violation("V8", m.node, "DisjointUnion.get_extra_parameters no longer starts from the child's fixed values", construct="DisjointUnion.get_extra_parameters fixed values")
+
+
+def v10_param_map(ctx) -> None:
+    """The parameter map applied to every child's parameters: position `pos` of the child
+    contributes its value to every parent position listed for it, starting from zeros of the
+    parent's width; build_param_map is that function with the table bound -- for *every*
+    table (a one-to-one table can still permute positions)."""
+    P = ctx.P
+    b = P.need_method("Constructor", "build_param_map", own=True)
+    ctx.analysed(b)
+    ps = [p for p in D.param_names(b.node) if p not in ("self", "cls")]
+    rets = [r for r in C.returns_of(b.node) if r.value is not None]
+    want = f"partial(Constructor.param_map, {ps[0]}, {ps[1]})"
+    bad = [r for r in rets if norm(r.value) != want]
+    if rets and not bad:
+        ctx.ok("V10", f"build_param_map is {want} for every table")
+    for r in bad:
+        ctx.violation("V10", r, f"build_param_map returns `{norm(r.value)[:80]}`; every table, one-to-one ones included, needs {want} (positions may be permuted)")
+    m = P.need_method("Constructor", "param_map", own=True)
+    ctx.analysed(m)
+    f = m.node
+    tab, num, par = [p for p in D.param_names(f) if p not in ("self", "cls")][:3]
+    init = PT.find_all(f, f"_M_new = [0 for _A_ in range({num})]") or PT.find_all(f, f"_M_new = [0] * {num}")
+    if not init:
+        ctx.violation("V10", f, f"param_map must start from {num} zeros (the parent's width)", construct="Constructor.param_map zeros")
+        return
+    new = init[0][1]["_M_new"]
+    loops = [l for l in walk_local(f) if isinstance(l, ast.For) and norm(l.iter) == f"enumerate({par})" and isinstance(l.target, ast.Tuple) and len(l.target.elts) == 2]
+    if len(loops) != 1:
+        ctx.violation("V10", f, f"param_map must visit every (position, value) of enumerate({par})", construct="Constructor.param_map loop")
+        return
+    pos, val = (norm(e) for e in loops[0].target.elts)
+    adds = [a for a in walk_local(loops[0]) if isinstance(a, ast.AugAssign) and isinstance(a.target, ast.Subscript) and norm(a.target.value) == new]
+    ok = False
+    for a in adds:
+        inner = [l for l in C.enclosing_loops(f, a) if isinstance(l, ast.For) and l is not loops[0]]
+        if len(inner) == 1 and isinstance(inner[0].target, ast.Name) and norm(a.target.slice) == inner[0].target.id and isinstance(a.op, ast.Add) and norm(a.value) == val:
+            src = inner[0].iter
+            if isinstance(src, ast.Name):
+                ds = [d for d in D.definitions(f).get(src.id, []) if d[1] is not None]
+                src_t = norm(ds[0][1]) if ds else src.id
+            else:
+                src_t = norm(src)
+            if src_t == f"{tab}[{pos}]" and not C.guards(f, a, within=loops[0]):
+                ok = True
+    if ok:
+        ctx.ok("V10", "param_map adds the value at child position pos to every parent position listed in table[pos]")
+    else:
+        ctx.violation("V10", loops[0], f"param_map must do `{new}[p] += {val}` for every p in {tab}[{pos}], unconditionally", construct="Constructor.param_map accumulation")
+    rets = [r for r in C.returns_of(f) if r.value is not None]
+    if len(rets) == 1 and norm(rets[0].value) == f"tuple({new})":
+        ctx.ok("V10", "param_map returns the accumulated tuple")
+    else:
+        ctx.violation("V10", f, f"param_map must return tuple({new})", construct="Constructor.param_map return")
+
+
+def v11_provider_results_not_written(ctx) -> None:
+    """What a provider (the terms / objects / counts function of another rule, handed in as a
+    callable) returns is that rule's cached level.  A constructor may read it and must copy it
+    before changing anything: a name bound directly to a provider call is never the target of a
+    subscript store, an augmented subscript assignment or a mutating call."""
+    P = ctx.P
+    mutators = {"update", "pop", "popitem", "clear", "setdefault", "append", "extend", "remove", "insert", "add", "discard", "subtract"}
+    n = 0
+    for cname in ("DisjointUnion", "CartesianProduct", "Complement", "Quotient"):
+        cls = P.need_class(cname)
+        for m in cls.methods.values():
+            f = m.node
+            params = set(D.param_names(f)) - {"self", "cls"}
+            callables = set()
+            for c in walk_local(f):
+                if isinstance(c, ast.Call) and isinstance(c.func, ast.Name) and c.func.id in params:
+                    callables.add(c.func.id)
+            # elements of provider tuples: `for sub in subterms: sub(n)` / zip(...) targets
+            for lp in walk_local(f):
+                if isinstance(lp, (ast.For, ast.comprehension)):
+                    its = {x.id for x in ast.walk(lp.iter) if isinstance(x, ast.Name)}
+                    if its & params:
+                        for t in ast.walk(lp.target):
+                            if isinstance(t, ast.Name):
+                                callables.add(t.id)
+            if not callables:
+                continue
+            for st in walk_local(f):
+                t, v = PT.assign_value(st)
+                if not (isinstance(t, ast.Name) and isinstance(v, ast.Call) and isinstance(v.func, ast.Name) and v.func.id in callables):
+                    continue
+                n += 1
+                name = t.id
+                bad = []
+                for x in walk_local(f):
+                    if isinstance(x, ast.Subscript) and isinstance(x.ctx, (ast.Store, ast.Del)) and isinstance(x.value, ast.Name) and x.value.id == name:
+                        bad.append(x)
+                    if isinstance(x, ast.Call) and isinstance(x.func, ast.Attribute) and x.func.attr in mutators and isinstance(x.func.value, ast.Name) and x.func.value.id == name:
+                        bad.append(x)
+                if bad:
+                    ctx.violation("V11", C.stmt_of(bad[0]), f"{m.qualname}: `{name}` is what the provider `{norm(v)}` returned (another rule's cached level), not a copy, and is written "
+                                  "to: that rule's terms are changed for every later reader")
+                else:
+                    ctx.ok("V11", f"{m.qualname}: `{name}` = {norm(v)[:40]} is only read")
+            ctx.analysed(m)
+    # the flipped constructors start from a copy of the parent's terms
+    for cname, mname in (("Quotient", "_a"), ("Complement", "get_terms")):
+        m = P.need_method(cname, mname, own=True)
+        f = m.node
+        cps = [c for c in walk_local(f) if isinstance(c, ast.Call) and norm(c.func) in ("Counter", "dict", "copy") and len(c.args) == 1 and isinstance(c.args[0], ast.Call)
+               and isinstance(c.args[0].func, ast.Name) and c.args[0].func.id in D.param_names(f)]
+        if cps:
+            n += 1
+            ctx.ok("V11", f"{m.qualname} starts from a copy of the parent's terms")
+    if n < 2:
+        ctx.floor("V11", 99)
